@@ -258,11 +258,11 @@ func powScenarios(r *ev.Run) []powScenario {
 		{Default: 0x1f00ffff, Max: 0x1d00ffff, Gap: 5, Period: 10},
 		{Default: 0x1e7fffff, Max: 0x1c0fffff, Gap: 4, Period: 7},
 		{Default: 0x1903a30c, Max: 0, Gap: 2, Period: 15}, // the repository's own test configuration
-		{Default: 10, Max: 30, Gap: 2, Period: 15},         // legacy: leading zero bits
+		{Default: 10, Max: 30, Gap: 2, Period: 15},        // legacy: leading zero bits
 		{Default: 12, Max: 14, Gap: 3, Period: 16},
 		{Default: 8, Max: 200, Gap: 5, Period: 10},
 	}
-	nRand := r.N(6, 60)
+	nRand := r.N(9, 600)
 	for i := 0; i < nRand; i++ {
 		g := rand.New(rand.NewSource(r.Seed*31337 + int64(i)))
 		if i%3 == 2 {
@@ -286,6 +286,15 @@ func powScenarios(r *ev.Run) []powScenario {
 				kind = "B-keep-before-first-adjustment"
 			}
 			out = append(out, powScenario{kind, c, buildTs(h-1, per, nil), uniformBits(h-1, c.Default)})
+			// the same with blocks much faster / slower than expected: still no adjustment
+			if h >= G && h > 1 {
+				fast, slow := make([]int64, h-1), make([]int64, h-1)
+				for i := range fast {
+					fast[i], slow[i] = per/8, per*6
+				}
+				out = append(out, powScenario{kind + "|fast", c, buildTs(h-1, per, fast), uniformBits(h-1, c.Default)})
+				out = append(out, powScenario{kind + "|slow", c, buildTs(h-1, per, slow), uniformBits(h-1, c.Default)})
+			}
 		}
 		// an adjusted target to use as "previous" value in later epochs
 		adj := c.Default
